@@ -34,6 +34,10 @@ claimed = {
          "Decides the durability orderings the recovery argument rests on: the synced offset and the committed acknowledgement are produced only after the fsync wait completed without error; failed appends truncate back to the last synced offset; the live index changes only on the committed branch and in replay; the prune watermark is written write→sync→close→rename→syncDir and is durable before obsolete files are removed; live path, replay path and the store API apply the same watermark filter, which only grows; only the newest log tolerates a torn tail and the tail is cut at the offset reported with the read error; no new writer while a repair is pending. Crash images themselves (torn bytes, Pebble's record format, fsync semantics) are not decided.",
          "trusted: go/types, go/ssa, the condition canonicaliser; pebble's wal/record packages are outside the analysed code",
          "DESIGN.md §5 C14"),
+ "C06": ("who-may-call over the resolved call graph; must-hold DNF at the creation of the store closure; SSA value identity between the verified block/commitments and what is stored; CFG post-dominance of the new-head notification; field-store guards for the reorg range",
+         "Decides the safety half of sync: only the sync store task extends the chain and only after SanityCheckNewHeight succeeded for that very block with the commitments that check returned; only sync (and the offline tool) reverts; every stored block is announced exactly there, in storage order, from the single producer; a local block at or below the last possibly valid height is reverted only after comparison with the source; a pending reorg range is extended, never overwritten; succession is checked before any write. Convergence, liveness and schedule-dependent reorg ranges are not decided.",
+         "trusted: go/types, go/ssa, VTA; sync's goroutine structure (stream callbacks run in order) is taken from the code's comments, not analysed",
+         "DESIGN.md §5 C06"),
 }
 pending = {}  # id -> reason (properties not claimed)
 props = [json.loads(l) for l in open(os.path.join(V, "properties.jsonl"))]
